@@ -31,7 +31,7 @@ Unsupported, fail, find_class, find_method, num_const = _p.Unsupported, _p.fail,
 
 COQTYPE = {'num': 'A', 'nat': 'nat', 'param': 'param A', 'vec': 'list A', 'pv': 'pv A', 'rc': 'rcv A',
            'optpair': '(option A * option A)', 'opt': 'option A', 'optvec': 'option (list A)', 'str': 'string',
-           'strs': 'list string', 'bool': 'bool'}
+           'strs': 'list string', 'bool': 'bool', 'lens': 'list nat'}
 
 # (file, class, member, how, context, arguments, stores)
 #   how: 'setter' | 'method' | 'static' | 'init' | 'nested:<outer setter>'
@@ -66,6 +66,8 @@ TARGETS = [
     ('t_init', 'opaque'), ('t_optimal', 'opaque'), ('t_range', 'num'), ('t_external', 'vec'), ('c', 'param'), ('cbounds', 'opaque')], False),
   ('device.py', 'Device', 'set_cbound', 'nested:cbounds',
    [('self.lbounds', 'vec', 'self_lbounds'), ('self.hbounds', 'vec', 'self_hbounds')], [('cbound', 'pv')], False),
+  ('deviceset.py', 'DeviceSet', '__init__', 'init', [('re.match(id)', 'bool', 'id_ok')],
+   [('id', 'opaque'), ('devices', 'lens'), ('sbounds', 'opaque')], False),
   ('mfdeviceset.py', 'MFDeviceSet', '__init__', 'init',
    [('device.lbounds', 'vec', 'device_lbounds'), ('device.hbounds', 'vec', 'device_hbounds')],
    [('device', 'opaque'), ('flows', 'strs')], False),
@@ -95,6 +97,7 @@ class Tx:
     self.bound = {}          # ast.dump(expr) -> (kind, text): expressions proven not-None by an enclosing `and`
     self.assigned_attrs = set()
     self.fresh = 0
+    self.patterns = []
 
   def fail(self, node, why):
     fail(self.fname, node, why)
@@ -246,6 +249,8 @@ class Tx:
     opn = {ast.Gt: ast.Lt, ast.GtE: ast.LtE}.get(type(op), type(op))
     if opn not in self.CMP_NUM:
       self.fail(node, 'comparison operator %s' % type(op).__name__)
+    if ka == 'natvec' and kb == 'nat' and isinstance(op, ast.Eq):
+      return ('pbool', ('forallb', 'existsb', '(fun x => Nat.eqb x %s)' % b[1], a[1]))
     if ka in ('nat', 'ndim') or kb in ('nat', 'ndim'):
       if ka == 'ndim' or kb == 'ndim':
         nd, other = (a, b) if ka == 'ndim' else (b, a)
@@ -320,6 +325,9 @@ class Tx:
     if e.keywords:
       self.fail(e, 'keyword arguments')
     d = self.dotted(fn)
+    if d == 'len' and len(e.args) == 1 and isinstance(e.args[0], ast.Subscript) and isinstance(e.args[0].slice, ast.Constant) \
+       and e.args[0].slice.value == 0 and self.ex(e.args[0].value)[0] == 'lens':
+      return ('nat', '(hd 0 %s)' % self.ex(e.args[0].value)[1])       # len(devices[0])
     if d == 'len' and len(e.args) == 1:
       a = e.args[0]
       if isinstance(a, ast.Name) and a.id == 'self':
@@ -336,9 +344,26 @@ class Tx:
       if k == 'pv':
         return ('nat', '(pv_len %s)' % t)
       self.fail(e, 'len of kind %s' % k)
+    # np.vectorize(lambda a: len(a))(np.array(devices)): the vector of the devices' horizon lengths
+    if isinstance(fn, ast.Call) and self.dotted(fn.func) == 'np.vectorize' and len(fn.args) == 1 and not fn.keywords \
+       and isinstance(fn.args[0], ast.Lambda) and len(fn.args[0].args.args) == 1 and isinstance(fn.args[0].body, ast.Call) \
+       and self.dotted(fn.args[0].body.func) == 'len' and len(fn.args[0].body.args) == 1 \
+       and isinstance(fn.args[0].body.args[0], ast.Name) and fn.args[0].body.args[0].id == fn.args[0].args.args[0].arg and len(e.args) == 1:
+      k, t = self.ex(e.args[0])
+      if k == 'lens':
+        return ('natvec', t)
+      self.fail(e, 'vectorised len over kind %s' % k)
+    # re.match(<constant pattern>, id): an opaque verdict supplied by the context
+    if d == 're.match' and len(e.args) == 2 and isinstance(e.args[0], ast.Constant) and isinstance(e.args[0].value, str) \
+       and isinstance(e.args[1], ast.Name):
+      key = 're.match(%s)' % e.args[1].id
+      if key in self.ctx:
+        self.patterns.append(e.args[0].value)
+        return ('bool', self.ctx[key][1])
+      self.fail(e, 're.match on %s is not in the declared context' % e.args[1].id)
     if d == 'np.array' and len(e.args) == 1:
       k, t = self.ex(e.args[0])
-      if k in ('param', 'vec'):
+      if k in ('param', 'vec', 'lens'):
         return (k, t)
       self.fail(e, 'np.array of kind %s' % k)
     if d == 'hasattr' and len(e.args) == 2 and isinstance(e.args[1], ast.Constant) and e.args[1].value == '__len__':
@@ -617,6 +642,8 @@ def gen_validators(repo):
     b = (' ' + ' '.join(binders)) if binders else ''
     out.append('(* %s: %s.%s, line %d *)' % (f, cls, member, m.lineno))
     out.append('Definition %s_accepts%s : bool :=\n  %s.' % (base, b, acc))
+    for k, pat in enumerate(tx.patterns):
+      out.append('Definition %s_pattern%d : string := "%s"%%string.' % (base, k, pat.replace('"', '""')))
     names.append(base + '_accepts')
     if stores or how in ('method', 'static'):
       if st is None:
